@@ -8,6 +8,12 @@ From PySnark.Model Require Import Lc Sym Gadgets.
 Import ListNotations.
 Open Scope Z_scope.
 
+Section WithP.
+Context {p : Z}.
+Local Notation slc := (Sym.slc p).
+Local Notation G := (@Gadgets.G p).
+Local Notation gst := (@Gadgets.gst p).
+
 Inductive pyval :=
 | PInt (z : Z)
 | PFloat (m : Z) (e : Z)            (* the dyadic rational m * 2^-e, e >= 0 *)
@@ -71,7 +77,7 @@ Definition lc_dunder (op : bop) (x : slc) (o : pyval) : G pyval :=
   | OSub => no <- uneg o ;; rec OAdd (PLC x) no
   | OMul => match o with PInt k => ret (PLC (scale x k)) | PLC y => lcr (mul x y) | _ => NI end
   | OTrueDiv => match o with
-                | PInt k => if k =? 0 then static_raise ValueError else lcr (truediv_int c x k)
+                | PInt k => if k =? 0 then static_raise ValueError else lcr (truediv_int x k)
                 | PLC y => lcr (truediv x y)
                 | _ => NI end
   | ODivmod => lc_divmod x o
@@ -88,15 +94,16 @@ Definition lc_dunder (op : bop) (x : slc) (o : pyval) : G pyval :=
                | PLC y => p2 <- pow_lc c (constv 2) y ;; lcr (mul x p2)
                | _ => NI end
   | ORshift => match o with
-               | PInt k => bs <- to_bits x n ;; ret (from_bits_v (py_slice_from bs k))
+               | PInt k => if k <? 0 then static_raise ValueError else
+                           bs <- to_bits x n ;; ret (from_bits_v (py_slice_from bs k))
                | PLC y => p2 <- pow_lc c (constv 2) y ;; qr <- divmod c x p2 ;; ret (PLC (fst qr))
                | _ => NI end
   | OAnd => match o with PInt k => lcr (privval (VLand (sval x) (VConst k))) | PLC y => lcr (land_lc c x y) | _ => NI end
   | OXor => match o with PInt k => lcr (privval (VLxor (sval x) (VConst k))) | PLC y => lcr (lxor_lc c x y) | _ => NI end
   | OOr => match o with PInt k => lcr (privval (VLor (sval x) (VConst k))) | PLC y => lcr (lor_lc c x y) | _ => NI end
-  | OLt => d <- rec OSub o (PLC x) ;; d1 <- rec OSub d (PInt 1) ;; m_check_positive d1
+  | OLt => match o with PFxp _ _ => NI | _ => d <- rec OSub o (PLC x) ;; d1 <- rec OSub d (PInt 1) ;; m_check_positive d1 end
   | OLe => d <- rec OSub o (PLC x) ;; m_check_positive d
-  | OGt => d <- rec OSub (PLC x) o ;; d1 <- rec OSub d (PInt 1) ;; m_check_positive d1
+  | OGt => match o with PFxp _ _ => NI | _ => d <- rec OSub (PLC x) o ;; d1 <- rec OSub d (PInt 1) ;; m_check_positive d1 end
   | OGe => d <- rec OSub (PLC x) o ;; m_check_positive d
   | OEq => d <- rec OSub (PLC x) o ;; m_check_zero d
   | ONe => d <- rec OSub (PLC x) o ;; m_check_nonzero d
@@ -242,7 +249,7 @@ Fixpoint fxp_pow (f : slc) (k : nat) : G slc :=
   | O => s <- get ;; ret (scale (one s) R)
   | S O => ret f
   | S k' => g <- fxp_pow f k' ;; m <- mul f g ;; r <- lc_dunder OFloorDiv m (PInt R) ;;
-            match r with PLC q => ret (recast q (VModP (sval q))) | _ => static_raise RuntimeError end
+            match r with PLC q => ret (recast_modp q) | _ => static_raise RuntimeError end
   end.
 Definition fxp_dunder' (op : bop) (f : slc) (self : pyval) (o : pyval) : G pyval :=
   match op, o with
@@ -348,3 +355,5 @@ Fixpoint binop (c : cfg) (fuel : nat) (op : bop) (a b : pyval) : G pyval :=
   end.
 Definition FUEL : nat := 12.
 Definition pyop (c : cfg) := binop c FUEL.
+End WithP.
+Arguments pyval : clear implicits.
